@@ -242,23 +242,23 @@ CLAIMED = {
              'Trusted: Coq kernel, Spec/EvenOdd.v as the meaning of even-odd filling, extraction, harness. No axioms.',
         technique='Coq: boundary/even-odd theorem for all bitmaps and paths + sound certificate checker run on each implementation output; algorithm model tied by correspondence'),
     'C04': dict(
-        text='Theorem C04_scripts (Coq, axiom-free): for five of the six encodation schemes of ISO/IEC 16022 the property holds for ALL byte '
-             'strings and ALL encoder scripts -- any sequence of ASCII runs (digit pairs or single digits at the encoder\'s choice, Upper Shift), '
-             'Base256 runs (any length 1..1555 with one- or two-codeword length field, or the run-to-the-end form), C40 and Text runs over '
-             'arbitrary bytes (basic set, Shift 1/2/3, Upper Shift, optional Shift-1 filler; ended by Unlatch or, at the symbol boundary, by nothing / '
-             'one trailing ASCII codeword) and X12 runs, in any order and number, followed by any amount of correct padding: '
-             'decode_data(stream script) = bytes of the script. The streams are defined from the encoder\'s side of the standard '
-             '(Spec/Stream16022.v: Tables 2 and 3, 5.2.x, Annex B) without reference to the decoder; the proof is an induction over the script '
-             'through decode_ascii / decode_base256 / decode_c40_like / decode_x12 / check_padding / the mode loop with all fuel obligations '
-             'discharged; the shift-set tables are settled by a kernel sweep over all 256 characters in both sets, the 3-in-2 packing and the '
-             'randomisers by arithmetic. PARTIAL: scripts with EDIFACT runs and Macro/FNC1/ECI prefixes are NOT covered by the theorem; they are '
-             'decided per case: the independent nondeterministic reference encoder tools/props/refenc.py draws random legal scripts over all six '
-             'modes with every termination form and every symbol capacity (each stream cross-validated by the independent decoder refdec.py), plus '
-             'constructed streams on the decoder\'s constants (Base256 field lengths 249/250/..1555), and the implementation, tied to the model on '
-             'the same streams, must return the script\'s bytes.',
+        text='Theorem C04_scripts (Coq, axiom-free): for ALL byte strings and ALL encoder scripts over all six encodation schemes of ISO/IEC '
+             '16022 -- any sequence, in any order and number, of ASCII runs (digit pairs or single digits at the encoder\'s choice, Upper Shift), '
+             'Base256 runs (any length 1..1555 with one- or two-codeword length field, or the run-to-the-end form), C40 and Text runs over arbitrary '
+             'bytes (basic set, Shift 1/2/3, Upper Shift, optional Shift-1 filler; ended by Unlatch or, at the symbol boundary, by nothing / one '
+             'trailing ASCII codeword), X12 runs, EDIFACT runs (unlatch in each of the four positions, or complete groups at the end of the symbol '
+             'followed by at most two ASCII codewords), followed by any amount of correct padding -- decode_data(stream script) = bytes of the script; '
+             'C04_macro05/06 and C04_fnc1: the same behind a Macro codeword (header and trailer re-created) or an FNC1 in first position. The streams '
+             'are defined from the encoder\'s side of the standard (Spec/Stream16022.v: Tables 2 and 3, 5.2.x, Annex B) without reference to the '
+             'decoder; the proof is an induction over the script through all per-mode decoders, check_padding and the mode loop with every fuel '
+             'obligation discharged; shift-set tables and EDIFACT characters by kernel sweeps over all 256 characters, 3-in-2 and 4-in-3 packing and '
+             'both randomisers by arithmetic. Residue decided per case: that the script language covers everything the standard allows (e.g. '
+             'redundant shift sequences, FNC1 inside runs) is not provable; the independent nondeterministic reference encoder tools/props/refenc.py '
+             'draws random legal streams from its own reading of the standard (each cross-validated by refdec.py), plus constructed streams on the '
+             'decoder\'s constants, and the implementation, tied to the model on the same streams, must return the bytes.',
         design_ref='DESIGN.md 6/C04',
         note='Trusted: Coq kernel, translator (mode tables), extraction, harness; Spec/Stream16022.v and refenc.py/refdec.py as readings of ISO/IEC 16022 5.2. No axioms.',
-        technique='Coq proof by induction over encoder scripts for ASCII/Base256/C40/Text/X12/padding (all inputs, all scripts); EDIFACT and headers: random legal scripts from an independent reference encoder per case'),
+        technique='Coq proof by induction over encoder scripts covering all six encodation schemes, padding, Macro and FNC1 prefixes (all inputs, all scripts); independent reference encoder per case for what lies outside the script language'),
 }
 
 PENDING_REASON = 'check not built yet in this round (work proceeds in the order of DESIGN.md section 11); not claimed until its quick command exists'
